@@ -9,7 +9,7 @@ import (
 
 func init() {
 	register(&Rule{ID: "VF-24", Title: "sync.Pool discipline: nothing derived from a pooled object is returned or used once the object has been Put back (a deferred Put runs before the caller sees the result)",
-		Props: []string{"C08", "C12", "C06"}, Floor: 1, Run: runVF24})
+		Props: []string{"C08", "C12", "C06", "C15"}, Floor: 1, Run: runVF24})
 }
 
 // A slice of a pooled buffer that outlives the Put is shared with whoever Gets the buffer next: a stable-store value
